@@ -275,6 +275,8 @@ def _args(eng, node, st):
 
 def b_len(eng, node, st):
     (v,) = _args(eng, node, st)
+    if isinstance(v, VModel) and hasattr(v, "sym_len"):
+        return v.sym_len(eng, st)
     eng.need_value(st, v)
     if isinstance(v, VList):
         return v.len
@@ -551,6 +553,8 @@ def b_list(eng, node, st):
         n, g = eng.iter_protocol(v, st)
         i = z3.Int(fresh_name("i"))
         return VList(INT, z3.Lambda([i], g(i)), n)
+    if isinstance(v, VDict):
+        v = VSet(v.key, v.dom)      # list(a_dict): its keys
     if isinstance(v, (VDictItems, VSet)):
         # list(d.items()) / list(a_set): the elements in the (unspecified) iteration order, once each
         n, g = eng.iter_protocol(v, st)
